@@ -143,6 +143,7 @@ namespace {
             }
             return r;
         }
+        static unsigned max_keys() { return 1u << 30; }
         bool traverse( std::vector<std::pair<int, int64_t>>& ) { return false; }
         int64_t size() { return int64_t( m.size()); }
         bool empty() { return m.empty(); }
@@ -197,6 +198,7 @@ namespace {
             }
             return r;
         }
+        static unsigned max_keys() { return 1u << 30; }
         bool traverse( std::vector<std::pair<int, int64_t>>& ) { return false; }
         int64_t size() { return int64_t( m.size()); }
         bool empty() { return m.empty(); }
